@@ -7,8 +7,8 @@
      - dec_octet never advances its cursor, so ipv4addr cannot succeed and host = reg-name,
      - relative_part calls authority() without looking for "//",
      - authority() tries host() after userinfo() without restoring the cursor,
-     - parse_full() is uri_reference() like parse(), and the functor of kind full matches the
-       scheme range without asking has_scheme().
+     - parse_full() is uri() && begin_ == end_ (since /repo 92a72e6; before that commit it was
+       uri_reference() like parse(): uri_validate_full_old below, kept for the regression example only).
    No proofs here. *)
 From Coq Require Import NArith List Bool.
 From CppcmsV Require Import Base.Sweep C04.Defs.
@@ -159,17 +159,27 @@ Definition parse_uri (s : list N) : bool * bool * list N :=
   | None => (match relative_ref s with [] => true | _ => false end, true, range)
   end.
 
-Inductive ukind := UBoth | URelative | UFull.
-(* uri_validator_functor::operator().  strict_full = false is the code as it is: parse_full() is
-   uri_reference() && begin_ == end_.  strict_full = true is the repaired parse_full(), uri() && begin_ == end_
-   (docs/C04_fix_1.diff); checks/C04.py looks at the source to see which one /repo has. *)
-Definition uri_validate (strict_full : bool) (k : ukind) (sre : list N -> bool) (v : list N) : bool :=
-  let '(ok, rel, range) := parse_uri v in
-  match k with
-  | UBoth => if ok then (if rel then true else sre range) else false
-  | URelative => if ok then rel else false
-  | UFull => if ok then (if strict_full && rel then false else sre range) else false
+(* parse_full(): uri() && begin_ == end_.  Some range = success, range = [scheme_start_, scheme_end_) *)
+Definition parse_full (s : list N) : option (list N) :=
+  match scheme s, uri s with
+  | Some (sc, _), Some [] => Some sc
+  | _, _ => None
   end.
+
+Inductive ukind := UBoth | URelative | UFull.
+(* uri_validator_functor::operator() *)
+Definition uri_validate (k : ukind) (sre : list N -> bool) (v : list N) : bool :=
+  match k with
+  | UBoth => let '(ok, rel, range) := parse_uri v in if ok then (if rel then true else sre range) else false
+  | URelative => let '(ok, rel, _) := parse_uri v in if ok then rel else false
+  | UFull => match parse_full v with Some range => sre range | None => false end
+  end.
+
+(* NOT the code: case full of the functor as it was before /repo commit 92a72e6, when parse_full() was
+   uri_reference() && begin_ == end_ (a relative reference parsed, and the scheme range remembered by the failed
+   uri() attempt was matched without asking has_scheme()).  Used by the regression examples only. *)
+Definition uri_validate_full_old (sre : list N -> bool) (v : list N) : bool :=
+  let '(ok, _, range) := parse_uri v in if ok then sre range else false.
 
 (* what a browser takes for the scheme of a URI reference: ALPHA *( ALPHA / DIGIT / + - . ) followed by a colon *)
 Definition visible_scheme (v : list N) : option (list N) :=
